@@ -413,7 +413,9 @@ def run(ctx):
 
     # ------------------------------------------------ Oomd::run main loop
     main = ctx.fn1("Oomd::Oomd::run")
-    ls = [l for l in loops(main) if l["stmt"] is not None and main.nodes[l["stmt"]]["k"] == "while"]
+    # (while (true) / for (;;) / do-while: the outermost loop of run())
+    ls = [l for l in loops(main) if l["stmt"] is not None and main.nodes[l["stmt"]]["k"] in ("while", "for", "do")
+          and not any(main.nodes[a]["k"] in ("while", "for", "do", "rangefor") for a in main.ancestors(l["stmt"]))]
     if len(ls) != 1:
         ctx.broken("main-loop", "anchor", main.loc(), "expected one while loop in Oomd::run")
     else:
